@@ -8,7 +8,7 @@
   The look-ahead (`HighLevelEncoder_lookAheadTest`, float arithmetic) is an arbitrary oracle
   `la : message → position → current mode → mode` in every theorem.
 -/
-import Gzx.Proofs.DMRoundTripAB
+import Gzx.Proofs.DMTotalAB
 namespace Gzx.Properties.C02
 open Gzx Gzx.DMHighLevel
 
@@ -161,6 +161,26 @@ theorem dm_roundtrip_ascii_partial (T : Tables) (syms : List SymbolInfo) (la : L
     (hb : ∀ x ∈ msg, x < 256) (h : encodeHL syms la msg cfg = .ok cw) :
     decodeText T cw = .ok msg :=
   roundtrip_ascii T syms la hla msg cfg cw hb h
+
+/-! ## termination -/
+
+/-
+  Full statement (NOT provable for an arbitrary oracle — an oracle may latch back and forth for ever — and not
+  proved for the float look-ahead `laFloat`; for the real code termination is watchdog-backed):
+
+    theorem dm_terminates (syms) (msg) (cfg) : encodeHL syms laFloat msg cfg ≠ .error .fuel
+-/
+
+/-- `dm_terminates`, ASCII + Base-256 part: for every oracle proposing only these two modes the dispatch loop
+    finishes within its fuel `4·|msg| + 8` and nothing panics: the result is a codeword list or a
+    WriterException (no admissible symbol is large enough / a Base-256 run longer than 1555). -/
+theorem dm_terminates_ascii_base256_partial (syms : List SymbolInfo) (la : LookAhead) (hla : LaAB la)
+    (msg : List Nat) (cfg : Cfg) :
+    encodeHL syms la msg cfg = .error .writer ∨ ∃ cw, encodeHL syms la msg cfg = .ok cw :=
+  encode_total_ab syms la hla msg cfg
+
+/-- non-vacuity of the error branch: nothing fits a table whose only symbol holds 3 codewords -/
+example : encodeHL [⟨false, 3, 5, 8, 8, 1⟩] (fun _ _ _ => ASCII) [65, 66, 67, 68] {} = .error .writer := by decide
 
 /-- non-vacuity: with the one-row table {10x10: 3 data codewords} "A12" encodes to [66, 142, 129] -/
 example : encodeHL [⟨false, 3, 5, 8, 8, 1⟩] (fun _ _ _ => ASCII) [65, 49, 50] {} = .ok [66, 142, 129] := by
